@@ -94,8 +94,8 @@ theorem sameMined_deleteUnminedTx (s : Store) (rec : Tx) : SameMined s (deleteUn
     (fun a p hp => hp.trans (sameMined_deleteRawUnminedInput a p rec.hash)) rec.ins s (SameMined.refl s)
   have h2 := foldl_preserves (SameMined s)
     (fun s (p : Nat × Int) => { s with unminedCredits := s.unminedCredits.erase ⟨rec.hash, p.1⟩ })
-    (fun a p hp => hp.trans ⟨rfl, rfl, rfl, rfl, rfl⟩) (withIdx rec.outs) _ h1
-  exact h2.trans ⟨rfl, rfl, rfl, rfl, rfl⟩
+    (fun a p hp => hp.trans ⟨rfl, rfl, rfl, rfl, rfl, rfl⟩) (withIdx rec.outs) _ h1
+  exact h2.trans ⟨rfl, rfl, rfl, rfl, rfl, rfl⟩
 
 theorem nuc_deleteUnminedTx (s : Store) (rec : Tx) : NUC s (deleteUnminedTx s rec) := by
   unfold deleteUnminedTx
@@ -107,7 +107,7 @@ theorem nuc_deleteUnminedTx (s : Store) (rec : Tx) : NUC s (deleteUnminedTx s re
   exact h2
 
 theorem wf_of_sameMined {s s' : Store} (h : SameMined s s') (hn : NodupKeys s'.unminedCredits) (hw : WF s) : WF s' := by
-  obtain ⟨hb, ht, hc, hu, hm⟩ := h
+  obtain ⟨hb, ht, hc, hu, hm, _⟩ := h
   refine ⟨by rw [hc]; exact hw.nodupCredits, by rw [hu]; exact hw.nodupUnspent, hn, by rw [hb]; exact hw.sorted,
     by rw [hb]; exact hw.txsNodup, by rw [hb, ht]; exact hw.recorded, by rw [hb, ht]; exact hw.recListed,
     by rw [ht]; exact hw.oneBlock, ?_, by rw [hu, hc]; exact hw.index, by rw [hm, hc]; exact hw.counter⟩
